@@ -244,6 +244,19 @@ CHECKS["C15"] = dict(
               "on every logged codec call",
 )
 
+CHECKS["C16"] = dict(
+    text="VyListLaws writes 37 defining laws (sorted permutation, involution, first occurrences, folds, zip with zero "
+         "fill, prefixes, sublists, powerset, permutations, cartesian product, grouping, grading, counting ...) as "
+         "predicates over arguments and result; MC_ListLaws checks them against definitional results and perturbed "
+         "results on every list <= 4 over 4 values (anti-vacuity). Every builtin is called on every integer list of the "
+         "tier's domain, eager and lazy, and TLC judges the forced result with the law.",
+    note="Trusted: the textbook definitions as written in spec/VyListLaws.tla. Transcribed-function form: the "
+         "quantifier is over inputs (lists <= 4/5 over -2..3 exhaustively, random to length 12).",
+    ref="DESIGN.md section 6 C16",
+    technique="TLA+ law predicates (VyListLaws, sanity-checked by TLC) evaluated by TLC on every logged call of a list "
+              "builtin",
+)
+
 NOT_APPLICABLE = {}
 
 DEFAULT_NA = ("check under construction in this round; it will be claimed when its TLA+ module and "
